@@ -18,7 +18,7 @@ def replay(prop_id, path):
 
 
 SRCO = {"C01": ("reader",), "C02": ("reader",), "C04": ("reader",), "C05": ("reader",), "C17": ("reader",),
-        "C11": ("sock", "reader"), "C12": ("sock", "reader"), "C07": ("msg",), "C14": ("msg",), "C15": ("msg",)}
+        "C11": ("sock", "reader"), "C12": ("sock", "reader"), "C07": ("msg",), "C14": ("msg",), "C15": ("msg",), "C19": ("helpers",)}
 
 
 def define(pid, propfile, insts, drivers, text, rule, assumptions=(), diag=None, src=False):
